@@ -205,6 +205,7 @@ class OutputFiles:
         self._binary_files_to_close: List[BinaryIO] = []
         self._text_files: List[TextIO] = []
         self._writers: List[Any] = []
+        self._record_writers: Dict[Any, Any] = {}
         self._proxy_files: List[ProxyWriter] = []
         self._proxied = proxied
         self._to_close: List[BinaryIO] = []
@@ -250,6 +251,12 @@ class OutputFiles:
             paths = ("-",)
         for path in paths:
             assert path is not None
+        # The same file(s) may be requested more than once, for example when
+        # a demultiplexing adapter is named like the file for reads without
+        # adapter. Opening a path again would truncate it and lose records.
+        key = (paths, interleaved)
+        if key in self._record_writers:
+            return self._record_writers[key]
         binary_files = []
         for path in paths:
             binary_file = self._file_opener.xopen(path, "wb")
@@ -259,10 +266,12 @@ class OutputFiles:
         if self._proxied:
             proxy_writer = ProxyRecordWriter(len(paths), **kwargs)
             self._proxy_files.append(proxy_writer)
+            self._record_writers[key] = proxy_writer
             return proxy_writer
         else:
             writer = self._file_opener.dnaio_open(*binary_files, mode="w", **kwargs)
             self._writers.append(writer)
+            self._record_writers[key] = writer
             return writer
 
     def open_stdout_record_writer(
